@@ -24,6 +24,7 @@ import (
 	abcicli "github.com/tendermint/tendermint/abci/client"
 	abci "github.com/tendermint/tendermint/abci/types"
 	"github.com/tendermint/tendermint/config"
+	"github.com/tendermint/tendermint/internal/verif/gosched"
 	"github.com/tendermint/tendermint/internal/verif/vr"
 	"github.com/tendermint/tendermint/libs/clist"
 	"github.com/tendermint/tendermint/mempool"
@@ -254,6 +255,10 @@ type Pend struct {
 	rr   *abcicli.ReqRes
 	resp chan *abci.ResponseCheckTx
 	Done chan error // for a synchronous first-time CheckTx: completion of the calling goroutine
+
+	// concurrent layer
+	answered bool
+	result   *abci.ResponseCheckTx
 }
 
 // Conn implements proxy.AppConnMempool. Requests queue up (FIFO, as on an ABCI connection); the harness
@@ -267,37 +272,23 @@ type Conn struct {
 	// QueueFlush: FlushAsync requests are queued and answered automatically when they reach the head
 	// (v0). When false FlushAsync is answered on the spot (v1 issues it from a free-running goroutine).
 	QueueFlush bool
-	// Journal of connection events (used by the concurrent harness), nil = off.
-	Journal *[]string
-	// Hook is called at every connection call (scheduling point of the concurrent harness).
-	Hook func(what string)
-	// SyncWait, when set, replaces the blocking receive of a synchronous request (concurrent harness).
-	SyncWait func(p *Pend) *abci.ResponseCheckTx
-	// FlushWait, when set, replaces FlushSync's wait for an empty queue (concurrent harness).
-	FlushWait func()
+	// Conc, when set, switches the connection to the concurrent layer: every call is a scheduling point of
+	// the cooperative scheduler and waiting is done through it (see concCheckTx / concFlushSync).
+	Conc *concRun
 }
 
 func NewConn(queueFlush bool) *Conn {
 	return &Conn{Arrived: make(chan struct{}, 256), QueueFlush: queueFlush}
 }
 
-func (c *Conn) hook(what string) {
-	if c.Journal != nil {
-		c.mu.Lock()
-		*c.Journal = append(*c.Journal, what)
-		c.mu.Unlock()
-	}
-	if c.Hook != nil {
-		c.Hook(what)
-	}
-}
-
 func (c *Conn) SetResponseCallback(cb abcicli.Callback) { c.mu.Lock(); c.cb = cb; c.mu.Unlock() }
 func (c *Conn) Error() error                            { return nil }
 
 func (c *Conn) CheckTxAsync(req abci.RequestCheckTx) *abcicli.ReqRes {
+	if c.Conc != nil {
+		return c.concCheckTx(req, false).rr
+	}
 	p := &Pend{Tx: TxOf(req.Tx), Recheck: req.Type == abci.CheckTxType_Recheck, rr: abcicli.NewReqRes(abci.ToRequestCheckTx(req))}
-	c.hook(fmt.Sprintf("req CheckTx(%s,recheck=%v)", TxNames[p.Tx], p.Recheck))
 	c.mu.Lock()
 	c.Q = append(c.Q, p)
 	c.mu.Unlock()
@@ -305,22 +296,27 @@ func (c *Conn) CheckTxAsync(req abci.RequestCheckTx) *abcicli.ReqRes {
 }
 
 func (c *Conn) CheckTxSync(req abci.RequestCheckTx) (*abci.ResponseCheckTx, error) {
+	if c.Conc != nil {
+		return c.concCheckTx(req, true).result, nil
+	}
 	p := &Pend{Tx: TxOf(req.Tx), Recheck: req.Type == abci.CheckTxType_Recheck, Sync: true,
 		rr: abcicli.NewReqRes(abci.ToRequestCheckTx(req)), resp: make(chan *abci.ResponseCheckTx, 1)}
-	c.hook(fmt.Sprintf("req CheckTx(%s,recheck=%v)", TxNames[p.Tx], p.Recheck))
 	c.mu.Lock()
 	c.Q = append(c.Q, p)
 	c.mu.Unlock()
-	if c.SyncWait != nil {
-		return c.SyncWait(p), nil
-	}
 	c.Arrived <- struct{}{}
 	return <-p.resp, nil
 }
 
 func (c *Conn) FlushAsync() *abcicli.ReqRes {
 	rr := abcicli.NewReqRes(abci.ToRequestFlush())
-	if !c.QueueFlush {
+	if c.Conc != nil && c.Conc.scn.Mode == "socket" {
+		c.mu.Lock()
+		c.Q = append(c.Q, &Pend{Flush: true, Tx: -1, rr: rr})
+		c.mu.Unlock()
+		return rr
+	}
+	if !c.QueueFlush || c.Conc != nil {
 		rr.Response = abci.ToResponseFlush()
 		rr.Done()
 		return rr
@@ -332,10 +328,8 @@ func (c *Conn) FlushAsync() *abcicli.ReqRes {
 }
 
 func (c *Conn) FlushSync() error {
-	c.hook("req FlushSync")
-	if c.FlushWait != nil {
-		c.FlushWait()
-		c.hook("res FlushSync")
+	if c.Conc != nil {
+		c.concFlushSync()
 		return nil
 	}
 	c.Pump()
@@ -404,7 +398,6 @@ func (c *Conn) Take(i int) *Pend {
 // Answer processes the application's response to p the way the socket client does. For a synchronous
 // request the waiting caller is released; what the caller then does is not awaited here.
 func (c *Conn) Answer(p *Pend, v Verdict) {
-	c.hook(fmt.Sprintf("res CheckTx(%s,recheck=%v)=%s", TxNames[p.Tx], p.Recheck, v.Name))
 	rsp := abci.ResponseCheckTx{Code: v.Code, Priority: v.Prio, GasWanted: v.Gas}
 	res := abci.ToResponseCheckTx(rsp)
 	c.mu.Lock()
@@ -493,6 +486,9 @@ type RefPend struct {
 	Recheck bool
 	H       int64
 	DupRisk bool
+	// Unexpected: the real mempool issued this request although the reference had refused the CheckTx; the
+	// reference keeps it only so that the queues stay aligned and never admits it.
+	Unexpected bool
 }
 
 // Ref is the reference model: pool list in arrival order, LRU of seen transactions, FIFO of unanswered
@@ -584,6 +580,9 @@ func (r *Ref) Deliver(i int, v Verdict) string {
 	r.Q = append(append([]RefPend(nil), r.Q[:i]...), r.Q[i+1:]...)
 	t := p.T
 	sz := int64(len(TxBytes[t]))
+	if p.Unexpected {
+		return "request-the-reference-had-refused"
+	}
 	if p.Recheck {
 		k := r.inPool(t)
 		if k < 0 {
@@ -719,7 +718,7 @@ func (r *Ref) Canon() string {
 	}
 	fmt.Fprintf(&b, " cache=%v q=", r.Cache.l)
 	for _, p := range r.Q {
-		fmt.Fprintf(&b, "(%d %v h%d %v)", p.T, p.Recheck, p.H, p.DupRisk)
+		fmt.Fprintf(&b, "(%d %v h%d %v %v)", p.T, p.Recheck, p.H, p.DupRisk, p.Unexpected)
 	}
 	fmt.Fprintf(&b, " rem=%v forgot=%v", r.Rem[:len(TxBytes)], r.Forgot[:len(TxBytes)])
 	return b.String()
@@ -786,7 +785,7 @@ type Inst struct {
 	Dead         bool
 }
 
-const waitLimit = 20 * time.Second
+const waitLimit = 60 * time.Second
 
 func NewInst(ad Adapter, c Cfg) *Inst {
 	in := &Inst{C: c, Ad: ad, Ref: NewRef(c), hookCh: make(chan struct{}, 64)}
@@ -848,12 +847,17 @@ func (in *Inst) waitG() {
 		return
 	}
 	dl := time.Now().Add(waitLimit)
+	pause := 10 * time.Microsecond
 	for i := 0; runtime.NumGoroutine() > in.baseG+in.liveG; i++ {
 		runtime.Gosched()
-		if i > 1000 {
-			time.Sleep(20 * time.Microsecond)
+		if i > 200 {
+			// back off: the goroutines need CPU, not our polling
+			time.Sleep(pause)
+			if pause < 2*time.Millisecond {
+				pause *= 2
+			}
 		}
-		if i%256 == 255 && time.Now().After(dl) {
+		if i%64 == 63 && time.Now().After(dl) {
 			in.inconclusive("goroutines of the mempool did not end")
 			return
 		}
@@ -1045,6 +1049,14 @@ func (in *Inst) applyCheck(op Op) *Viol {
 		in.diag(fmt.Sprintf("CheckTx(%s): real %s, reference %s", TxNames[op.Tx], got, want))
 	}
 	in.Outcome = "check:" + got
+	// keep the reference's queue aligned with the real connection even when the two disagree (the oracles then
+	// judge what the real mempool does with the request)
+	if issued && want != "issued" {
+		in.Ref.Q = append(in.Ref.Q, RefPend{T: op.Tx, H: in.Ref.H, Unexpected: true})
+	}
+	if !issued && want == "issued" {
+		in.Ref.Q = in.Ref.Q[:len(in.Ref.Q)-1]
+	}
 	if issued && want == "issued" {
 		q := in.Conn.Snapshot()
 		q[len(q)-1].DupRisk = in.Ref.Q[len(in.Ref.Q)-1].DupRisk
@@ -1056,10 +1068,6 @@ func (in *Inst) applyCheck(op Op) *Viol {
 		return v
 	}
 	if op.K == "submit" && issued {
-		if want != "issued" {
-			in.Dead = true // the reference has no matching request; nothing more is concluded on this path
-			return nil
-		}
 		o := in.Outcome
 		v := in.applyDeliver(in.Conn.Len()-1, Verdicts[op.V])
 		in.Outcome = o + "+" + in.Outcome
@@ -1611,13 +1619,14 @@ type search struct {
 	visited   map[[32]byte]struct{}
 	frontier  []*node
 	confirmed map[string]bool
+	reported  map[string]bool
 	States    int64
 	Trans     int64
 	Closed    bool // the frontier ran empty: the reachable space is closed
 }
 
 func newSearch(r *vr.Report, ad Adapter, c Cfg, b Bounds) *search {
-	s := &search{r: r, ad: ad, c: c, b: b, commits: commitOps(b), visited: map[[32]byte]struct{}{}, confirmed: map[string]bool{}}
+	s := &search{r: r, ad: ad, c: c, b: b, commits: commitOps(b), visited: map[[32]byte]struct{}{}, confirmed: map[string]bool{}, reported: map[string]bool{}}
 	root := NewInst(ad, c)
 	h := sha256.Sum256([]byte(root.Canon()))
 	s.visited[h] = struct{}{}
@@ -1645,6 +1654,11 @@ func (s *search) report(v *Viol, cs Case, in *Inst) {
 		}
 		s.confirmed[v.Key] = true
 	}
+	if s.reported[v.Key] {
+		r.Violation(v.Key, "", nil) // counts; text and replay of the first occurrence are kept
+		return
+	}
+	s.reported[v.Key] = true
 	cs.Trace = strings.Join(in.Trace, " ; ")
 	r.Violation(v.Key, fmt.Sprintf("[%s] %s ; after: %s", s.c, v.What, cs.Trace), cs)
 }
@@ -1787,18 +1801,30 @@ func (s *search) observe(in *Inst, path16 []uint16) {
 			r.Note("diag: [" + c.String() + "] " + d)
 		}
 		if v != nil {
-			cs := Case{Cfg: c, Path: path, Query: &q, Trace: strings.Join(in.Trace, " ; ") + " ; " + q.String()}
-			// reaps are deterministic reads; confirm by re-running the whole case
-			stable := vr.Confirm(2, v, func() error {
-				v2, _ := RunCase(ad, cs)
-				if v2 == nil {
-					return nil
-				}
-				return v2
-			})
-			if r.NViolations() < 40 && !stable {
+			cs := Case{Cfg: c, Path: path, Query: &q}
+			if !s.reported[v.Key] {
+				cs.Trace = strings.Join(in.Trace, " ; ") + " ; " + q.String()
+			}
+			// reaps are deterministic reads; the first occurrence of a key in this search is confirmed by re-running
+			// the whole case
+			stable := true
+			if !s.confirmed[v.Key] {
+				stable = vr.Confirm(2, v, func() error {
+					v2, _ := RunCase(ad, cs)
+					if v2 == nil {
+						return nil
+					}
+					return v2
+				})
+				s.confirmed[v.Key] = stable
+			}
+			switch {
+			case !stable:
 				r.Cap("a reap violation did not reproduce (treated as inconclusive): " + v.Key)
-			} else {
+			case s.reported[v.Key]:
+				r.Violation(v.Key, "", nil) // counts; text and replay of the first occurrence are kept
+			default:
+				s.reported[v.Key] = true
 				r.Violation(v.Key, fmt.Sprintf("[%s] %s ; after: %s", c, v.What, cs.Trace), cs)
 			}
 			r.Outcome("VIOLATION " + v.Key)
@@ -1931,4 +1957,503 @@ func RunSeq(ad Adapter, part string, quickBudget, thoroughBudget time.Duration, 
 	bj, _ := json.Marshal(b)
 	r.Bound = fmt.Sprintf("all operation sequences up to depth %d in every configuration of this shard (bounds %s)", minDepth, bj)
 	r.Add("configurations_closed", int64(closed))
+}
+
+// ------------------------------------------------------------------------------------------------
+// concurrent layer: real goroutines under the cooperative scheduler (internal/verif/gosched)
+
+// ConcAdapter additionally puts the mempool's own lock under the scheduler (requires the import rewrite of
+// libs/sync/sync.go resp. mempool/v1/mempool.go, see checks/C12.json).
+type ConcAdapter interface {
+	Adapter
+	Manage(p Pool, s *gosched.Sched)
+}
+
+// ThreadOp is one call a scenario thread makes.
+type ThreadOp struct {
+	K  string `json:"k"` // check | reap | reaptxs | flush
+	Tx int    `json:"tx,omitempty"`
+}
+
+// Scenario: a sequential prefix, the committing thread (what BlockExecutor.Commit does), other threads, and the
+// behaviour of the application connection.
+type Scenario struct {
+	Name    string       `json:"name"`
+	Cfg     Cfg          `json:"cfg"`
+	Mode    string       `json:"mode"` // socket: responses are handled by the client's receive goroutine; local: in the caller
+	Pre     []Op         `json:"pre,omitempty"`
+	Block   []int        `json:"block"`
+	Codes   []int        `json:"codes"`
+	Threads [][]ThreadOp `json:"threads"`
+}
+
+// ConcCase is a replayable execution of the concurrent layer.
+type ConcCase struct {
+	Scn     Scenario `json:"scenario"`
+	Choices []int    `json:"choices"`
+	Trace   string   `json:"trace,omitempty"`
+}
+
+type concRun struct {
+	scn        Scenario
+	in         *Inst
+	s          *gosched.Sched
+	journal    []string
+	updateDone bool
+	viol       *Viol
+	reaps      [][]int
+	othersLeft int
+}
+
+func (cr *concRun) log(s string) { cr.journal = append(cr.journal, s) }
+
+// buildConc constructs a fresh scenario instance: real mempool, sequential prefix, then the threads.
+func buildConc(ad ConcAdapter, scn Scenario, checkG bool) (*gosched.Sched, *concRun) {
+	cr := &concRun{scn: scn}
+	in := NewInst(ad, scn.Cfg)
+	cr.in = in
+	for _, op := range scn.Pre {
+		if v := in.Apply(op); v != nil || in.Panic != "" || in.Inconclusive != "" || in.Conn.Len() != 0 {
+			panic(fmt.Sprintf("c12kit: scenario prefix of %s is not clean: %v %s %s", scn.Name, v, in.Panic, in.Inconclusive))
+		}
+	}
+	s := gosched.New()
+	s.CheckGoroutine = checkG
+	cr.s = s
+	ad.Manage(in.Pool, s)
+	conn := in.Conn
+	conn.Conc = cr
+	pool := in.Pool
+	h := in.H
+	// T0: the sequence BlockExecutor.Commit performs
+	s.Go("commit", func() {
+		pool.Lock()
+		defer pool.Unlock()
+		if err := pool.FlushAppConn(); err != nil {
+			panic(err)
+		}
+		s.Point("app Commit request")
+		cr.log("Commit requested")
+		s.Point("app Commit response")
+		cr.log("Commit done")
+		txs := make(types.Txs, len(scn.Block))
+		resps := make([]*abci.ResponseDeliverTx, len(scn.Block))
+		for i, t := range scn.Block {
+			txs[i] = TxBytes[t]
+			resps[i] = &abci.ResponseDeliverTx{Code: uint32(scn.Codes[i])}
+		}
+		if err := pool.Update(h+1, txs, resps, nil, nil); err != nil {
+			panic(err)
+		}
+		cr.log("Update returned")
+		cr.updateDone = true
+	})
+	cr.othersLeft = 1 + len(scn.Threads)
+	for k, ops := range scn.Threads {
+		k, ops := k, ops
+		s.Go(fmt.Sprintf("client%d", k+1), func() {
+			for _, o := range ops {
+				switch o.K {
+				case "check":
+					err := pool.CheckTx(TxBytes[o.Tx], nil, mempool.TxInfo{SenderID: uint16(k + 1)})
+					cr.log(fmt.Sprintf("CheckTx(%s) returned %s", TxNames[o.Tx], errClass(err)))
+				case "reap":
+					cr.noteReap(pool.ReapMaxBytesMaxGas(-1, -1))
+				case "reaptxs":
+					cr.noteReap(pool.ReapMaxTxs(-1))
+				case "flush":
+					pool.Flush()
+					cr.log("Flush returned")
+				}
+			}
+		})
+	}
+	if scn.Mode == "socket" {
+		// the receive goroutine of the ABCI client: handles one response after the other, in request order
+		s.Go("abci-recv", func() {
+			for {
+				parked := false
+				if conn.qlen() == 0 && !cr.clientsDone() {
+					parked = true
+					s.Block("await request", func() bool { return conn.qlen() > 0 || cr.clientsDone() })
+				}
+				if conn.qlen() == 0 {
+					return
+				}
+				if !parked {
+					s.Point("deliver " + conn.headString())
+				}
+				conn.deliverHead(Verdicts[VOk])
+			}
+		})
+	}
+	s.OnStep = func() { cr.invariants("") }
+	return s, cr
+}
+
+func (cr *concRun) clientsDone() bool {
+	// evaluated while every thread is parked: all threads except the receive goroutine are done
+	return cr.s.DoneExcept("abci-recv")
+}
+
+func (cr *concRun) noteReap(txs types.Txs) {
+	var l []int
+	for _, tx := range txs {
+		l = append(l, TxOf(tx))
+	}
+	cr.reaps = append(cr.reaps, l)
+	cr.log("reap returned " + names(l))
+}
+
+// invariants evaluates, with every thread parked at a scheduling point, the clauses of C12 that hold "at every
+// moment"; after Update has returned also that the committed transactions are gone (the cache is large in
+// these scenarios, so a committed transaction is remembered throughout).
+func (cr *concRun) invariants(when string) {
+	if cr.viol != nil {
+		return
+	}
+	in := cr.in
+	w := in.Walk()
+	ver := in.C.Ver
+	for _, t := range w {
+		if count(w, t) > 1 {
+			cr.viol = &Viol{fmt.Sprintf("mempool/v%d:concurrent:duplicate-entry", ver), fmt.Sprintf("%s is in the pool twice %s", TxNames[t], names(w))}
+			return
+		}
+	}
+	if len(w) > in.C.Size || in.Pool.Size() > in.C.Size {
+		cr.viol = &Viol{fmt.Sprintf("mempool/v%d:concurrent:count-exceeds-size-limit", ver), fmt.Sprintf("pool %s, Size()=%d, configured Size=%d", names(w), in.Pool.Size(), in.C.Size)}
+		return
+	}
+	if sumBytes(w) > in.C.MaxBytes || in.Pool.SizeBytes() > in.C.MaxBytes {
+		cr.viol = &Viol{fmt.Sprintf("mempool/v%d:concurrent:bytes-exceed-max-txs-bytes", ver), fmt.Sprintf("pool %s holds %d bytes, SizeBytes()=%d, MaxTxsBytes=%d", names(w), sumBytes(w), in.Pool.SizeBytes(), in.C.MaxBytes)}
+		return
+	}
+	if cr.updateDone {
+		for i, t := range cr.scn.Block {
+			if count(w, t) > 0 && (cr.scn.Codes[i] == 0 || cr.scn.Cfg.Keep) && cr.scn.Cfg.CacheSize >= len(TxBytes) && !cr.flushed() {
+				cr.viol = &Viol{fmt.Sprintf("mempool/v%d:concurrent:committed-tx-in-pool-after-update", ver),
+					fmt.Sprintf("%s was committed in the block, Update has returned and the cache remembers it, yet it is in the pool %s", TxNames[t], names(w))}
+				return
+			}
+		}
+	}
+}
+
+func (cr *concRun) flushed() bool {
+	for _, j := range cr.journal {
+		if j == "Flush returned" {
+			return true
+		}
+	}
+	return false
+}
+
+// c05Clause judges the mempool clause of C05 on the journal (diagnostic only, C05 is decided elsewhere): from
+// the moment Commit is requested until Update has returned no first-time CheckTx request is issued, and none
+// issued earlier is still unanswered (or answered but not yet applied) when Commit is requested.
+func (cr *concRun) c05Clause() []string {
+	var out []string
+	req, upd := -1, -1
+	for i, j := range cr.journal {
+		if j == "Commit requested" {
+			req = i
+		}
+		if j == "Update returned" {
+			upd = i
+		}
+	}
+	if req < 0 || upd < 0 {
+		return nil
+	}
+	open := map[string]bool{}
+	applied := map[string]bool{}
+	for i, j := range cr.journal {
+		switch {
+		case strings.HasPrefix(j, "req CheckTx(") && strings.Contains(j, "recheck=false"):
+			tx := j[len("req CheckTx("):strings.Index(j, ",")]
+			if i > req && i < upd {
+				out = append(out, "C05-clause:checktx-issued-between-commit-request-and-update")
+			}
+			open[tx] = true
+		case strings.HasPrefix(j, "res CheckTx(") && strings.Contains(j, "recheck=false"):
+			tx := j[len("res CheckTx("):strings.Index(j, ",")]
+			delete(open, tx)
+			applied[tx] = false
+		case strings.HasPrefix(j, "CheckTx(") && strings.Contains(j, " returned issued"):
+			tx := j[len("CheckTx("):strings.Index(j, ")")]
+			if a, ok := applied[tx]; ok && !a {
+				applied[tx] = true
+			}
+		}
+		if i == req {
+			if len(open) > 0 {
+				out = append(out, "C05-clause:checktx-unanswered-when-commit-requested")
+			}
+			if cr.in.C.Ver == 1 {
+				for _, a := range applied {
+					if !a {
+						out = append(out, "C05-clause:checktx-answered-but-not-applied-when-commit-requested")
+					}
+				}
+			}
+		}
+	}
+	return out
+}
+
+// judge evaluates one finished execution.
+func (cr *concRun) judge(res *gosched.Result) (*Viol, []string) {
+	ver := cr.in.C.Ver
+	if cr.viol == nil {
+		cr.invariants("end")
+	}
+	v := cr.viol
+	var diags []string
+	if res.Deadlock {
+		diags = append(diags, "deadlock: "+strings.Join(res.Blocked, ","))
+	}
+	if res.Overrun {
+		diags = append(diags, "step limit reached")
+	}
+	for _, p := range res.Panics {
+		diags = append(diags, "panic: "+firstLine(p))
+	}
+	if v == nil {
+		for _, l := range cr.reaps {
+			for _, t := range l {
+				if count(l, t) > 1 {
+					v = &Viol{fmt.Sprintf("mempool/v%d:concurrent:reap-returns-duplicate", ver), "a reap returned " + names(l)}
+				}
+			}
+		}
+	}
+	return v, append(diags, cr.c05Clause()...)
+}
+
+// conc-mode behaviour of the connection -----------------------------------------------------------
+
+func (c *Conn) qlen() int { c.mu.Lock(); defer c.mu.Unlock(); return len(c.Q) }
+
+func (c *Conn) headString() string {
+	c.mu.Lock()
+	defer c.mu.Unlock()
+	p := c.Q[0]
+	if p.Flush {
+		return "Flush response"
+	}
+	return fmt.Sprintf("CheckTx(%s,recheck=%v) response", TxNames[p.Tx], p.Recheck)
+}
+
+// deliverHead handles the oldest request's response on the calling thread (the receive goroutine).
+func (c *Conn) deliverHead(v Verdict) {
+	c.mu.Lock()
+	p := c.Q[0]
+	c.Q = c.Q[1:]
+	cb := c.cb
+	c.mu.Unlock()
+	if p.Flush {
+		res := abci.ToResponseFlush()
+		p.rr.Response = res
+		p.rr.Done()
+		if cb != nil {
+			cb(p.rr.Request, res)
+		}
+		p.rr.InvokeCallback()
+		p.answered = true
+		return
+	}
+	c.Conc.log(fmt.Sprintf("res CheckTx(%s,recheck=%v)", TxNames[p.Tx], p.Recheck))
+	res := abci.ToResponseCheckTx(abci.ResponseCheckTx{Code: v.Code, Priority: v.Prio, GasWanted: v.Gas})
+	p.rr.Response = res
+	p.rr.Done()
+	if cb != nil {
+		cb(p.rr.Request, res)
+	}
+	p.rr.InvokeCallback()
+	p.result = res.GetCheckTx()
+	p.answered = true
+}
+
+func (c *Conn) concCheckTx(req abci.RequestCheckTx, syncCall bool) *Pend {
+	cr := c.Conc
+	p := &Pend{Tx: TxOf(req.Tx), Recheck: req.Type == abci.CheckTxType_Recheck, Sync: syncCall, rr: abcicli.NewReqRes(abci.ToRequestCheckTx(req))}
+	what := fmt.Sprintf("req CheckTx(%s,recheck=%v)", TxNames[p.Tx], p.Recheck)
+	cr.s.Point(what)
+	cr.log(what)
+	if cr.scn.Mode == "local" {
+		// in-process application: the response is handled in the caller, before the call returns
+		cr.log(fmt.Sprintf("res CheckTx(%s,recheck=%v)", TxNames[p.Tx], p.Recheck))
+		v := Verdicts[VOk]
+		res := abci.ToResponseCheckTx(abci.ResponseCheckTx{Code: v.Code, Priority: v.Prio, GasWanted: v.Gas})
+		c.mu.Lock()
+		cb := c.cb
+		c.mu.Unlock()
+		p.rr.Response = res
+		p.rr.Done()
+		if cb != nil {
+			cb(p.rr.Request, res)
+		}
+		p.rr.InvokeCallback()
+		p.result = res.GetCheckTx()
+		p.answered = true
+		return p
+	}
+	c.mu.Lock()
+	c.Q = append(c.Q, p)
+	c.mu.Unlock()
+	if syncCall {
+		cr.s.Block("await CheckTx response", func() bool { return p.answered })
+	}
+	return p
+}
+
+func (c *Conn) concFlushSync() {
+	cr := c.Conc
+	cr.s.Point("req FlushSync")
+	if cr.scn.Mode == "local" {
+		return
+	}
+	p := &Pend{Flush: true, Tx: -1, rr: abcicli.NewReqRes(abci.ToRequestFlush())}
+	c.mu.Lock()
+	c.Q = append(c.Q, p)
+	c.mu.Unlock()
+	cr.s.Block("await Flush response", func() bool { return p.answered })
+}
+
+// Scenarios of the concurrent layer.
+func ConcScenarios(ver int) []Scenario {
+	var out []Scenario
+	for _, mode := range []string{"socket", "local"} {
+		big := Cfg{Ver: ver, Size: 3, MaxBytes: LooseBytes, CacheSize: 8, Recheck: false}
+		// S1: the block commits a transaction this node has not seen yet, while it arrives from a peer; another
+		// client submits an unrelated transaction.
+		out = append(out, Scenario{Name: "commit-of-unseen-tx-races-its-arrival", Cfg: big, Mode: mode, Block: []int{2}, Codes: []int{0},
+			Threads: [][]ThreadOp{{{K: "check", Tx: 2}}, {{K: "check", Tx: 0}}}})
+		// S2: the block commits a pool member; two clients race for the last free slot (Size 2) around the update.
+		small := Cfg{Ver: ver, Size: 2, MaxBytes: TightBytes, CacheSize: 8, Recheck: false}
+		out = append(out, Scenario{Name: "commit-frees-a-slot-two-clients-race-for-it", Cfg: small, Mode: mode,
+			Pre: []Op{{K: "submit", Tx: 0, Peer: 1, V: VOk}}, Block: []int{0}, Codes: []int{0},
+			Threads: [][]ThreadOp{{{K: "check", Tx: 2}}, {{K: "check", Tx: 1}}}})
+		// S3: the same transaction from two peers at once, a reap in between, around an empty block.
+		out = append(out, Scenario{Name: "same-tx-from-two-peers-and-a-reap", Cfg: big, Mode: mode, Block: nil, Codes: nil,
+			Threads: [][]ThreadOp{{{K: "check", Tx: 0}}, {{K: "check", Tx: 0}, {K: "reap"}}}})
+		if ver == 0 {
+			// S4 (v0: recheck goes through the connection): a recheck round is started by the update while a
+			// client submits; the committed transaction is resubmitted.
+			re := Cfg{Ver: ver, Size: 3, MaxBytes: LooseBytes, CacheSize: 8, Recheck: true}
+			out = append(out, Scenario{Name: "update-starts-recheck-while-clients-submit", Cfg: re, Mode: mode,
+				Pre: []Op{{K: "submit", Tx: 0, Peer: 1, V: VOk}, {K: "submit", Tx: 1, Peer: 1, V: VOk}}, Block: []int{0}, Codes: []int{0},
+				Threads: [][]ThreadOp{{{K: "check", Tx: 2}}, {{K: "check", Tx: 0}}}})
+		}
+	}
+	return out
+}
+
+// RunConc is the body of the concurrent parts: every scenario, every schedule with at most `bound` preemptions.
+func RunConc(ad ConcAdapter, part string, quickBudget, thoroughBudget time.Duration) {
+	r := vr.Start("C12", part, quickBudget, thoroughBudget)
+	defer r.Finish()
+	r.Rule = "every schedule (sequence of thread choices at the scheduling points: operations of the mempool's own lock and every call of the application connection) with at most the stated number of preemptions, per scenario; non-trivial = schedules with at least one preemption"
+	r.Assume("scheduling points are the mempool's own RWMutex operations and the calls into the application connection; code between two points runs atomically (list, index and cache operations are internally locked or run under the mempool lock)")
+	r.Assume("the application answers every request with OK; responses are handled in request order by one receive goroutine (socket mode) or in the caller (local mode)")
+	judgeCase := func(cs ConcCase) (*Viol, []string, *gosched.Result, *concRun) {
+		res, sc := gosched.Replay(cs.Choices, func() (*gosched.Sched, interface{}) { s, cr := buildConc(ad, cs.Scn, true); return s, cr })
+		cr := sc.(*concRun)
+		v, d := cr.judge(res)
+		return v, d, res, cr
+	}
+	var rc ConcCase
+	if replaying, skip := r.ReplayCase(&rc); skip {
+		return
+	} else if replaying {
+		r.Eval()
+		r.Traces++
+		v, d, res, cr := judgeCase(rc)
+		if v != nil {
+			r.Violation(v.Key, fmt.Sprintf("[%s/%s] %s ; schedule: %s ; journal: %s", rc.Scn.Name, rc.Scn.Mode, v.What, res, strings.Join(cr.journal, " ; ")), rc)
+		}
+		for _, x := range d {
+			r.Note("diag: " + x)
+		}
+		return
+	}
+	noted := map[string]int{}
+	nbuilt := 0
+	var bounds []string
+	k := 0
+	for _, scn := range ConcScenarios(ad.Ver()) {
+		k++
+		if !r.Mine(k) {
+			continue
+		}
+		scn := scn
+		bound := vr.Pick(2, 3)
+		if scn.Mode == "socket" && ad.Ver() == 1 {
+			bound = vr.Pick(1, 2) // v1 has more scheduling points per CheckTx; the socket scenarios are the large ones
+		}
+		bounds = append(bounds, fmt.Sprintf("%s/%s:%d", scn.Name, scn.Mode, bound))
+		execs, complete := gosched.Explore(bound,
+			func() (*gosched.Sched, interface{}) {
+				// goroutine identity is verified on a sample of the executions (and on every replay)
+				nbuilt++
+				s, cr := buildConc(ad, scn, nbuilt%64 == 1)
+				return s, cr
+			},
+			func(res *gosched.Result, sc interface{}) bool {
+				cr := sc.(*concRun)
+				r.Eval()
+				r.Traces++
+				r.Transitions += int64(len(res.Steps))
+				if len(res.Steps) > r.MaxDepth {
+					r.MaxDepth = len(res.Steps)
+				}
+				if res.Preempts > 0 {
+					r.NTCount(1)
+				}
+				v, diags := cr.judge(res)
+				cs := ConcCase{Scn: scn, Choices: res.Choices, Trace: res.String()}
+				w := cr.in.Walk()
+				out := scn.Name + "/" + scn.Mode + " final=" + names(w)
+				for _, d := range diags {
+					key := d
+					if i := strings.Index(d, ":"); i > 0 && !strings.HasPrefix(d, "C05-clause") {
+						key = d[:i]
+					}
+					r.Add("diag_"+scn.Mode+"_"+key, 1)
+					if strings.HasPrefix(d, "C05-clause") {
+						out += " " + d
+					}
+					if n, _ := noted[key]; n < 2 {
+						noted[key] = n + 1
+						r.Note(fmt.Sprintf("diag: [%s/%s v%d] %s ; schedule: %s ; journal: %s", scn.Name, scn.Mode, ad.Ver(), d, res, strings.Join(cr.journal, " ; ")))
+					}
+				}
+				if v != nil {
+					stable := vr.Confirm(3, v, func() error {
+						v2, _, _, _ := judgeCase(cs)
+						if v2 == nil {
+							return nil
+						}
+						return v2
+					})
+					if !stable {
+						r.Cap("a schedule did not reproduce its violation (treated as inconclusive): " + v.Key)
+					} else {
+						r.Violation(v.Key, fmt.Sprintf("[%s/%s] %s ; schedule: %s ; journal: %s", scn.Name, scn.Mode, v.What, res, strings.Join(cr.journal, " ; ")), cs)
+					}
+					out += " VIOLATION " + v.Key
+				}
+				r.Outcome(out)
+				if execs := r.Evaluations; execs%500 == 1 {
+					r.Sample(cs)
+				}
+				return !r.Deadline("schedule enumeration of " + scn.Name)
+			})
+		r.Set("schedules["+scn.Name+"/"+scn.Mode+"]", fmt.Sprintf("%d complete=%v", execs, complete))
+		if !complete {
+			break
+		}
+	}
+	r.Bound = "all schedules within the preemption bound of each scenario: " + strings.Join(bounds, " ")
 }
